@@ -394,7 +394,16 @@ def loglik_plan():
     out = tr.block(rest)
     if out is None:
         raise Untranslatable("forward has no return")
+    # the scaling is reshaped to (-1, 1, 1, 1, 1): per-sample values go on the BATCH axis (the plan treats reshape as layout)
+    want = f"{ps[4]}={ps[4]}.reshape(-1,*torch.ones(len({ps[2]}.shape)-1).int())"
+    reshapes = [ast.unparse(st).replace(" ", "") for st in rest
+                if isinstance(st, ast.Assign) and ast.unparse(st.targets[0]) == ps[4] and ".reshape(" in ast.unparse(st.value)]
+    global _SCALING_BATCH_FIRST
+    _SCALING_BATCH_FIRST = reshapes == [want]
     return b.nodes, [out], default_one
+
+
+_SCALING_BATCH_FIRST = True
 
 
 def method_plan(name: str, kinds: list[str], bind: list):
@@ -520,12 +529,14 @@ def _c19_extra():
         ns, outs, default_one = loglik_plan()
         out.append(f"/-- translated from `{RIM}`:`MRILogLikelihood.forward` -/\ndef loglik_plan : Plan :=\n  {_plan(ns, outs)}\n"
                    f"/-- `loglikelihood_scaling` defaults to `torch.tensor([1.0])` -/\ndef loglik_default_scaling_is_one : Bool := "
-                   f"{'true' if default_one else 'false'}\n")
+                   f"{'true' if default_one else 'false'}\n"
+                   "/-- `loglikelihood_scaling` is reshaped exactly once, to `(-1, 1, …, 1)`: a per-sample scaling lies on the batch axis -/\n"
+                   f"def loglik_scaling_on_batch_axis : Bool := {'true' if _SCALING_BATCH_FIRST else 'false'}\n")
         status["loglik_plan"] = "translated"
     except Untranslatable as e:
         status["loglik_plan"] = f"skipped: {e}"
         out.append(f"/-- SKIPPED ({e}) -/\ndef loglik_plan : Plan := DataConsistency.loglikPlan\n"
-                   "def loglik_default_scaling_is_one : Bool := true\n")
+                   "def loglik_default_scaling_is_one : Bool := true\ndef loglik_scaling_on_batch_axis : Bool := true\n")
     for lean, meth, kinds, bind in (
         ("a_star_plan", "_A_star_op", [W], [("param", 0), SENS, MASK]),
         ("a_star_a_plan", "_A_star_A_op", [V], [("param", 0), SENS, MASK]),
